@@ -275,3 +275,71 @@ Theorem C03_btor2_roundtrip_concrete : forall (fuel : nat) (ls : list Btor2.line
   exists lr' s', crun (Btor2.parse_btor2 fuel lrs_init) (set_chunk (reader_init sr) c) = CDone ((ls, FOk), lr') s'.
 Proof. exact btor2_roundtrip_concrete. Qed.
 Print Assumptions C03_btor2_roundtrip_concrete.
+
+(* ------------------------------------------------------------------ *)
+(* The converse direction (ConversePc.v, ConverseBtor2.v, ConverseCnf.v, ConverseAiger.v): for every text a parser accepts
+   (clean end), the parsed value is in the format's domain, so writing it and parsing that output again — every admissible
+   run — yields the same value (for AIGER even the same header and items).  The written text may differ from the accepted one
+   (layout, non-minimal varints, elided header fields): only its size needs to fit fuel and 2^62. *)
+From Flussab Require Import Aiger AigerProofs AigerWrite AigerRt ConversePc ConverseBtor2 ConverseCnf ConverseAiger Converse.
+
+Theorem C03_btor2_accepted_is_in_domain : forall (fuel : nat) (S : bytes) (ls : list Btor2.line) (fin : final) lr' v' (fail : option N),
+  Forall (fun b => b < 256) S -> nlen S < 2 ^ 62 -> (length S < fuel)%nat ->
+  aruns (parse_btor2 fuel lrs_init) (view_init S fail) (ADone (ls, fin, lr') v') ->
+  Forall Btor2Rt.line_ok ls /\ Forall (fun b => b < 256) (write_lines ls).
+Proof. exact btor2_accepted_rewritable. Qed.
+Print Assumptions C03_btor2_accepted_is_in_domain.
+
+Theorem C03_btor2_converse : forall (fuel : nat) (S : bytes) (ls : list Btor2.line) lr' v' r,
+  Forall (fun b => b < 256) S -> nlen S < 2 ^ 62 -> (length S < fuel)%nat ->
+  (length (write_lines ls) < fuel)%nat -> nlen (write_lines ls) < 2 ^ 62 ->
+  aruns (parse_btor2 fuel lrs_init) (view_init S None) (ADone (ls, FOk, lr') v') ->
+  aruns (parse_btor2 fuel lrs_init) (view_init (write_lines ls) None) r ->
+  exists lr2 v2, r = ADone ((ls, FOk), lr2) v2.
+Proof. exact btor2_converse_all_runs. Qed.
+Print Assumptions C03_btor2_converse.
+
+Theorem C03_dimacs_accepted_is_in_domain : forall fuel k maxd ih S ho items lr' v',
+  Forall (fun b => b < 256) S -> nlen S < 2 ^ 62 -> (length S < fuel)%nat -> (maxd <= max_dimacs_isize)%Z ->
+  aruns (parse_dimacs fuel k maxd ih lrs_init) (view_init S None) (ADone (Some ho, items, FOk, lr') v') ->
+  doc_ok ih k maxd {| d_hdr := ho; d_items := items |} = true.
+Proof. exact dimacs_accepted_doc_ok. Qed.
+Print Assumptions C03_dimacs_accepted_is_in_domain.
+
+Theorem C03_dimacs_converse : forall fuel k maxd ih S ho items lr' v' r,
+  Forall (fun b => b < 256) S -> nlen S < 2 ^ 62 -> (length S < fuel)%nat -> (maxd <= max_dimacs_isize)%Z ->
+  let d := {| d_hdr := ho; d_items := items |} in
+  (length (write_doc k d) < fuel)%nat -> nlen (write_doc k d) < 2 ^ 62 ->
+  aruns (parse_dimacs fuel k maxd ih lrs_init) (view_init S None) (ADone (Some ho, items, FOk, lr') v') ->
+  aruns (parse_dimacs fuel k maxd ih lrs_init) (view_init (write_doc k d) None) r ->
+  doc_ok ih k maxd d = true /\ exists lr2 v2, r = ADone (Some ho, items, FOk, lr2) v2.
+Proof. exact dimacs_converse_all_runs. Qed.
+Print Assumptions C03_dimacs_converse.
+
+Theorem C03_aag_accepted_is_in_domain : forall fuel maxc S fail hd items lr' v',
+  1 <= maxc -> maxc < 2 ^ 64 ->
+  aruns (parse_aag fuel maxc lrs_init) (view_init S fail) (ADone (Some hd, items, FOk, lr') v') ->
+  exists a, hd = g_header a /\ items = aag_items a /\ aag_ok maxc a /\ whole_file (Some hd, items, FOk) = Ok a.
+Proof. exact aag_accepted_in_domain. Qed.
+Print Assumptions C03_aag_accepted_is_in_domain.
+
+Theorem C03_aag_converse : forall fuel maxc S hd items lr' v' a r,
+  1 <= maxc -> maxc < 2 ^ 64 ->
+  aruns (parse_aag fuel maxc lrs_init) (view_init S None) (ADone (Some hd, items, FOk, lr') v') ->
+  whole_file (Some hd, items, FOk) = Ok a ->
+  (length (write_aag a) < fuel)%nat -> nlen (write_aag a) < 2 ^ 62 ->
+  aruns (parse_aag fuel maxc lrs_init) (view_init (write_aag a) None) r ->
+  aag_ok maxc a /\ exists lr2 v2, r = ADone (Some hd, items, FOk, lr2) v2.
+Proof. exact aag_converse_all_runs. Qed.
+Print Assumptions C03_aag_converse.
+
+Theorem C03_aig_converse : forall fuel maxc S hd items lr' v' a r,
+  1 <= maxc -> maxc < 2 ^ 64 ->
+  aruns (parse_aig fuel maxc lrs_init) (view_init S None) (ADone (Some hd, items, FOk, lr') v') ->
+  whole_file (Some hd, items, FOk) = Ok a ->
+  (length (write_aig a) < fuel)%nat -> nlen (write_aig a) < 2 ^ 62 ->
+  aruns (parse_aig fuel maxc lrs_init) (view_init (write_aig a) None) r ->
+  aig_ok maxc a /\ write_aig_checked a = WrOk (write_aig a) /\ exists lr2 v2, r = ADone (Some hd, items, FOk, lr2) v2.
+Proof. exact aig_converse_all_runs. Qed.
+Print Assumptions C03_aig_converse.
+
